@@ -15,9 +15,10 @@ env = dict(os.environ, CARGO_NET_OFFLINE="true"); env.pop("RUSTUP_TOOLCHAIN", No
 rep = False
 try:
     open(gen, "w").write("#[allow(unused_imports)]\nuse crate::%s::*;\n%s\n" % (mod, "\n".join(info["tests"])))
-    for extra in ([], ["--release"]):
-        q = subprocess.run(["cargo", "kani", "playback", "-Z", "concrete-playback"] + extra + ["--", "kani_concrete_playback"],
-                           cwd=os.path.join(ROOT, "kani"), env=env)
+    rel = {"CARGO_PROFILE_DEV_OPT_LEVEL": "3", "CARGO_PROFILE_DEV_DEBUG_ASSERTIONS": "false", "CARGO_PROFILE_DEV_OVERFLOW_CHECKS": "false"}
+    for extra in ({}, rel):
+        q = subprocess.run(["cargo", "kani", "playback", "-Z", "concrete-playback", "--", "kani_concrete_playback"],
+                           cwd=os.path.join(ROOT, "kani"), env=dict(env, **extra))
         rep = rep or q.returncode != 0
 finally:
     open(gen, "w").write(orig)
